@@ -1,15 +1,15 @@
-(* Proofs about Model/Eltorito.v, part 2: EltoritoBootCatalog.record / .parse (state machine driven
-   by the read(32) loop of PyCdlib._check_and_parse_eltorito) / .new / .add_section.
+(* Proofs about Model/Eltorito.v, part 2: EltoritoBootCatalog.record / .parse (state machine) under
+   the reader loop of PyCdlib._check_and_parse_eltorito.  The invariant of new/add_section and the
+   examples are in Proofs/EltoritoBuiltProofs.v.
 
    Main results
      cat_bytes_length                |record()| = 32 * (2 + headers + entries)
      cat_roundtrip                   cat_wf c -> parse_catalog (record c ++ 0 :: rest) = Some c
-                                     (any number of sections / entries / standalone entries)
-     cat_record_alone_unterminated   record() itself carries no terminator: parse of it alone fails
-     cat_new_inv add_section_inv built_inv built_roundtrip     the invariant of new + add_section
-     add_section_nonbootable_refuted   a non-bootable section entry (first byte 0x00) ends the parse
-     full_catalog_refuted              31 sections fill the 2048-byte extent: no terminator left
-     extension_entry_lost              a 0x44 extension is parsed but never written back *)
+                                     (any number of sections / entries, bootable or not, and
+                                     bootable standalone entries)
+     cat_record_alone_unterminated   record() itself carries no terminator
+     cat_extent_roundtrip            cat_wf c, |record c| <= 2048 ->
+                                     parse_catalog_extent (extent as written ++ anything) = Some c *)
 From Coq Require Import ZArith List Bool Lia ZifyBool.
 From PV.Base Require Import Prim ListX.
 From PV.Gen Require Import GenConst GenFun.
@@ -29,14 +29,10 @@ Proof.
   destruct (split_last l) as [[i y]|]; subst l; reflexivity.
 Qed.
 
-(* ---- the loop, one 32-byte record at a time ---- *)
-Lemma loop_step f st chunk rest st' :
-  length chunk = 32%nat -> cat_parse_step st chunk = Some (st', false) ->
-  parse_loop (S f) st (chunk ++ rest) = parse_loop f st' rest.
-Proof.
-  intros Hl Hs. cbn [parse_loop]. rewrite (firstn_app_exact 32) by exact Hl.
-  rewrite (skipn_app_exact 32) by exact Hl. rewrite Hs. reflexivity.
-Qed.
+(* ---- the loop, one 32-byte unit at a time ---- *)
+Lemma units_step st u r st' :
+  cat_parse_step st u = Some (st', false) -> parse_units (u :: r) st = parse_units r st'.
+Proof. intros Hs. cbn [parse_units]. rewrite Hs. reflexivity. Qed.
 
 Lemma entry_bytes_head e : exists t, entry_bytes e = e_boot_indicator e :: t.
 Proof. eexists. unfold entry_bytes, entry_fields. cbn [concat app]. reflexivity. Qed.
@@ -61,67 +57,74 @@ Proof.
   rewrite header_bytes_eq, (firstn_app_exact 32) in Hp by apply header_fields_length.
   destruct (hdr_bytes_head h) as [t Ht]. rewrite Ht in *.
   unfold header_ok in H. andb_split H. unfold cat_parse_step.
-  destruct (h_indicator h =? 0) eqn:E0; [lia|]. rewrite H, Hp. reflexivity.
+  destruct (h_indicator h =? 0) eqn:E0; [lia|]. cbn [andb]. rewrite H, Hp. reflexivity.
 Qed.
 
+Lemma last_pending_app pre l :
+  last_pending (pre ++ [l]) = (zlen (h_entries l) <? h_num_entries l).
+Proof. unfold last_pending. rewrite split_last_app. reflexivity. Qed.
+
+(* a section entry, bootable (0x88) or not (0x00), while the last header still expects entries *)
 Lemma step_entry v i pre ind pid num ids done sa e :
-  entry_ok e = true -> entry_bootable e = true -> zlen done < num ->
+  entry_ok e = true -> zlen done < num ->
   cat_parse_step (PSections v i (pre ++ [mk_header ind pid num ids done]) sa) (entry_bytes e) =
   Some (PSections v i (pre ++ [mk_header ind pid num ids (done ++ [e])]) sa, false).
 Proof.
-  intros H Hb Hn. destruct (entry_roundtrip e H) as (_ & _ & Hp).
+  intros H Hn. destruct (entry_roundtrip e H) as (_ & _ & Hp).
   destruct (entry_bytes_head e) as [t Ht]. rewrite Ht in *.
-  unfold entry_bootable in Hb. apply Z.eqb_eq in Hb. rewrite Hb in *.
-  unfold cat_parse_step. change (136 =? 0) with false. change ((136 =? 144) || (136 =? 145)) with false.
-  change ((136 =? 136) || false) with true. cbv iota. rewrite Hp, split_last_app.
-  cbn [h_entries h_num_entries]. replace (zlen done <? num) with true by lia.
-  unfold header_add_parsed_entry. cbn [h_entries h_num_entries]. replace (zlen done >=? num) with false by lia.
-  reflexivity.
+  destruct (entry_ok_inv e H) as (Hbi & _).
+  unfold cat_parse_step. rewrite last_pending_app. cbn [h_entries h_num_entries].
+  replace (zlen done <? num) with true by lia.
+  destruct Hbi as [Hb|Hb]; rewrite Hb in *.
+  - change (136 =? 0) with false. change ((136 =? 144) || (136 =? 145)) with false.
+    change ((136 =? 136) || false) with true. cbv iota. cbn [andb]. rewrite Hp, split_last_app.
+    cbn [h_entries h_num_entries]. replace (zlen done <? num) with true by lia.
+    unfold header_add_parsed_entry. cbn [h_entries h_num_entries].
+    replace (zlen done >=? num) with false by lia. reflexivity.
+  - change (0 =? 0) with true. cbn [andb]. rewrite Hp, split_last_app.
+    unfold header_add_parsed_entry. cbn [h_entries h_num_entries].
+    replace (zlen done >=? num) with false by lia. reflexivity.
 Qed.
 
-(* the last section (if any) already has all the entries its header announced *)
-Definition last_full (secs : list et_header) : bool :=
-  match split_last secs with
-  | None => true
-  | Some (_, l) => negb (zlen (h_entries l) <? h_num_entries l)
-  end.
-
 Lemma step_standalone v i secs sa e :
-  entry_ok e = true -> entry_bootable e = true -> last_full secs = true ->
+  entry_ok e = true -> entry_bootable e = true -> last_pending secs = false ->
   cat_parse_step (PSections v i secs sa) (entry_bytes e) = Some (PSections v i secs (sa ++ [e]), false).
 Proof.
   intros H Hb Hf. destruct (entry_roundtrip e H) as (_ & _ & Hp).
   destruct (entry_bytes_head e) as [t Ht]. rewrite Ht in *.
   unfold entry_bootable in Hb. apply Z.eqb_eq in Hb. rewrite Hb in *.
   unfold cat_parse_step. change (136 =? 0) with false. change ((136 =? 144) || (136 =? 145)) with false.
-  change ((136 =? 136) || false) with true. cbv iota. rewrite Hp.
-  unfold last_full in Hf. destruct (split_last secs) as [[pre l]|]; [|reflexivity].
-  destruct (zlen (h_entries l) <? h_num_entries l); [discriminate Hf|reflexivity].
+  change ((136 =? 136) || false) with true. cbv iota. cbn [andb]. rewrite Hp.
+  unfold last_pending in Hf. destruct (split_last secs) as [[pre l]|]; [|reflexivity].
+  rewrite Hf. reflexivity.
 Qed.
 
-(* ---- whole lists of records ---- *)
-Lemma loop_entries v i pre ind pid num ids sa rest f : forall todo done,
-  forallb entry_ok todo = true -> forallb entry_bootable todo = true ->
-  zlen done + zlen todo = num ->
-  parse_loop (length todo + f) (PSections v i (pre ++ [mk_header ind pid num ids done]) sa)
-             (concat (map entry_bytes todo) ++ rest) =
-  parse_loop f (PSections v i (pre ++ [mk_header ind pid num ids (done ++ todo)]) sa) rest.
+(* the terminator: a unit starting with 0x00 when no section expects an entry *)
+Lemma step_term v i secs sa t r :
+  last_pending secs = false -> sections_sane secs = true ->
+  parse_units ((0 :: t) :: r) (PSections v i secs sa) = Some (mk_cat v i secs sa).
 Proof.
-  induction todo as [|e todo IH]; intros done Ho Hb Hn.
-  - cbn [length map concat app plus]. rewrite app_nil_r. reflexivity.
-  - cbn [forallb] in Ho, Hb. apply andb_prop in Ho. apply andb_prop in Hb.
-    destruct Ho as [Ho1 Ho2]. destruct Hb as [Hb1 Hb2]. rewrite zlen_cons in Hn.
-    pose proof (zlen_nonneg todo) as Hnn.
-    cbn [length map concat plus]. rewrite <- app_assoc.
-    rewrite (loop_step _ _ _ _ _ (entry_bytes_length e)
-               (step_entry v i pre ind pid num ids done sa e Ho1 Hb1 ltac:(lia))).
+  intros Hf Hs. cbn [parse_units cat_parse_step]. change (0 =? 0) with true. rewrite Hf, Hs. reflexivity.
+Qed.
+
+(* ---- whole lists of units ---- *)
+Lemma units_entries v i pre ind pid num ids sa r : forall todo done,
+  forallb entry_ok todo = true -> zlen done + zlen todo = num ->
+  parse_units (map entry_bytes todo ++ r) (PSections v i (pre ++ [mk_header ind pid num ids done]) sa) =
+  parse_units r (PSections v i (pre ++ [mk_header ind pid num ids (done ++ todo)]) sa).
+Proof.
+  induction todo as [|e todo IH]; intros done Ho Hn.
+  - cbn [map app]. rewrite app_nil_r. reflexivity.
+  - cbn [forallb] in Ho. apply andb_prop in Ho. destruct Ho as [Ho1 Ho2]. rewrite zlen_cons in Hn.
+    pose proof (zlen_nonneg todo) as Hnn. cbn [map app].
+    rewrite (units_step _ _ _ _ (step_entry v i pre ind pid num ids done sa e Ho1 ltac:(lia))).
     rewrite IH by (try assumption; rewrite zlen_app, zlen_cons, zlen_nil; lia).
     rewrite <- app_assoc. reflexivity.
 Qed.
 
-(* number of 32-byte records of a list of sections *)
-Fixpoint nrec (ss : list et_header) : nat :=
-  match ss with [] => O | s :: r => S (length (h_entries s) + nrec r) end.
+(* the 32-byte units of a list of sections: each header followed by its entries *)
+Fixpoint sec_units (ss : list et_header) : list (list Z) :=
+  match ss with [] => [] | s :: r => (hdr_bytes s :: map entry_bytes (h_entries s)) ++ sec_units r end.
 
 Lemma section_ok_inv s : section_ok s = true ->
   header_ok s = true /\ h_num_entries s = zlen (h_entries s) /\ forallb entry_ok (h_entries s) = true.
@@ -130,377 +133,190 @@ Proof.
   apply andb_prop in H. destruct H as [H H1]. split; [exact H|split; [lia|exact H0]].
 Qed.
 
-Lemma loop_sections v i sa rest f : forall ss pre,
+Lemma units_sections v i sa r : forall ss pre,
   forallb section_ok ss = true ->
-  forallb (fun h => forallb entry_bootable (h_entries h)) ss = true ->
-  parse_loop (nrec ss + f) (PSections v i pre sa) (concat (map header_bytes ss) ++ rest) =
-  parse_loop f (PSections v i (pre ++ ss) sa) rest.
+  parse_units (sec_units ss ++ r) (PSections v i pre sa) = parse_units r (PSections v i (pre ++ ss) sa).
 Proof.
-  induction ss as [|s ss IH]; intros pre Ho Hb.
-  - cbn [nrec map concat app plus]. rewrite app_nil_r. reflexivity.
-  - cbn [forallb] in Ho, Hb. apply andb_prop in Ho. apply andb_prop in Hb.
-    destruct Ho as [Ho1 Ho2]. destruct Hb as [Hb1 Hb2].
+  induction ss as [|s ss IH]; intros pre Ho.
+  - cbn [sec_units app]. rewrite app_nil_r. reflexivity.
+  - cbn [forallb] in Ho. apply andb_prop in Ho. destruct Ho as [Ho1 Ho2].
     destruct (section_ok_inv s Ho1) as (Hh & Hn & He).
-    cbn [nrec map concat plus]. rewrite header_bytes_eq, <- !app_assoc.
-    rewrite (loop_step _ _ _ _ _ (header_fields_length s) (step_header v i pre sa s Hh)).
-    unfold header_set_entries. rewrite <- Nat.add_assoc.
-    rewrite (loop_entries v i pre _ _ _ _ sa _ _ (h_entries s) []) by (try assumption; rewrite zlen_nil; lia).
+    cbn [sec_units]. rewrite <- app_assoc. cbn [app].
+    rewrite (units_step _ _ _ _ (step_header v i pre sa s Hh)).
+    unfold header_set_entries.
+    rewrite (units_entries v i pre _ _ _ _ sa _ (h_entries s) []) by (try assumption; rewrite zlen_nil; lia).
     cbn [app]. rewrite IH by assumption. rewrite <- app_assoc. cbn [app]. destruct s; reflexivity.
 Qed.
 
-Lemma loop_standalone v i secs rest f : last_full secs = true -> forall es sa,
+Lemma units_standalone v i secs r : last_pending secs = false -> forall es sa,
   forallb entry_ok es = true -> forallb entry_bootable es = true ->
-  parse_loop (length es + f) (PSections v i secs sa) (concat (map entry_bytes es) ++ rest) =
-  parse_loop f (PSections v i secs (sa ++ es)) rest.
+  parse_units (map entry_bytes es ++ r) (PSections v i secs sa) = parse_units r (PSections v i secs (sa ++ es)).
 Proof.
   intros Hf. induction es as [|e es IH]; intros sa Ho Hb.
-  - cbn [length map concat app plus]. rewrite app_nil_r. reflexivity.
+  - cbn [map app]. rewrite app_nil_r. reflexivity.
   - cbn [forallb] in Ho, Hb. apply andb_prop in Ho. apply andb_prop in Hb.
-    destruct Ho as [Ho1 Ho2]. destruct Hb as [Hb1 Hb2].
-    cbn [length map concat plus]. rewrite <- app_assoc.
-    rewrite (loop_step _ _ _ _ _ (entry_bytes_length e) (step_standalone v i secs sa e Ho1 Hb1 Hf)).
+    destruct Ho as [Ho1 Ho2]. destruct Hb as [Hb1 Hb2]. cbn [map app].
+    rewrite (units_step _ _ _ _ (step_standalone v i secs sa e Ho1 Hb1 Hf)).
     rewrite IH by assumption. rewrite <- app_assoc. reflexivity.
 Qed.
 
-Lemma sections_last_full secs : forallb section_ok secs = true -> last_full secs = true.
+Lemma sections_not_pending secs : forallb section_ok secs = true -> last_pending secs = false.
 Proof.
-  intros H. unfold last_full. pose proof (split_last_spec secs) as Hs.
+  intros H. unfold last_pending. pose proof (split_last_spec secs) as Hs.
   destruct (split_last secs) as [[pre l]|]; [|reflexivity]. subst secs.
   rewrite forallb_app in H. apply andb_prop in H. destruct H as [_ H]. cbn [forallb] in H.
   rewrite andb_true_r in H. destruct (section_ok_inv l H) as (_ & Hn & _). lia.
 Qed.
 
-(* ---- lengths ---- *)
-Lemma concat_headers_length ss : length (concat (map header_bytes ss)) = (32 * nrec ss)%nat.
+(* ---- units and bytes ---- *)
+Definition cat_units (c : et_catalog) : list (list Z) :=
+  val_bytes (c_validation c) :: entry_bytes (c_initial c) ::
+  sec_units (c_sections c) ++ map entry_bytes (c_standalone c).
+
+Lemma concat_sec_units ss : concat (sec_units ss) = concat (map header_bytes ss).
 Proof.
   induction ss as [|s ss IH]; [reflexivity|].
-  cbn [map concat nrec]. rewrite app_length, header_bytes_length, IH. lia.
+  cbn [sec_units map concat]. rewrite concat_app, IH. reflexivity.
 Qed.
+Lemma cat_bytes_units c : cat_bytes c = concat (cat_units c).
+Proof.
+  unfold cat_bytes, cat_units. cbn [concat]. rewrite concat_app, concat_sec_units. reflexivity.
+Qed.
+Lemma sec_units_32 ss : Forall (fun u : list Z => length u = 32%nat) (sec_units ss).
+Proof.
+  induction ss as [|s ss IH]; [constructor|]. cbn [sec_units]. apply Forall_app. split; [|exact IH].
+  constructor; [apply header_fields_length|]. apply Forall_forall. intros u Hu.
+  apply in_map_iff in Hu. destruct Hu as (e & <- & _). apply entry_bytes_length.
+Qed.
+Lemma cat_units_32 c : Forall (fun u : list Z => length u = 32%nat) (cat_units c).
+Proof.
+  unfold cat_units. constructor; [apply val_bytes_length|]. constructor; [apply entry_bytes_length|].
+  apply Forall_app. split; [apply sec_units_32|]. apply Forall_forall. intros u Hu.
+  apply in_map_iff in Hu. destruct Hu as (e & <- & _). apply entry_bytes_length.
+Qed.
+Lemma concat_32_length us : Forall (fun u : list Z => length u = 32%nat) us ->
+  length (concat us) = (32 * length us)%nat.
+Proof.
+  induction 1 as [|u us Hu _ IH]; [reflexivity|]. cbn [concat length]. rewrite app_length, Hu, IH. lia.
+Qed.
+
+(* reading a stream that starts with whole units *)
+Lemma read32_units us : Forall (fun u : list Z => length u = 32%nat) us -> forall n rest,
+  read32 (length us + n) (concat us ++ rest) = us ++ read32 n rest.
+Proof.
+  induction 1 as [|u us Hu _ IH]; intros n rest; [reflexivity|].
+  cbn [length plus read32 concat]. rewrite <- app_assoc.
+  rewrite (firstn_app_exact 32), (skipn_app_exact 32) by exact Hu. rewrite IH. reflexivity.
+Qed.
+
+(* number of 32-byte records of a list of sections *)
+Fixpoint nrec (ss : list et_header) : nat :=
+  match ss with [] => O | s :: r => S (length (h_entries s) + nrec r) end.
+Lemma sec_units_length ss : length (sec_units ss) = nrec ss.
+Proof.
+  induction ss as [|s ss IH]; [reflexivity|].
+  cbn [sec_units nrec]. rewrite app_length. cbn [length]. rewrite map_length, IH. reflexivity.
+Qed.
+Lemma cat_units_length c :
+  length (cat_units c) = (2 + nrec (c_sections c) + length (c_standalone c))%nat.
+Proof. unfold cat_units. cbn [length]. rewrite app_length, sec_units_length, map_length. lia. Qed.
 Theorem cat_bytes_length c :
   length (cat_bytes c) = (32 * (2 + nrec (c_sections c) + length (c_standalone c)))%nat.
-Proof.
-  unfold cat_bytes. rewrite !app_length, val_bytes_length, entry_bytes_length,
-    concat_headers_length, concat_entries_length. lia.
-Qed.
+Proof. rewrite cat_bytes_units, (concat_32_length _ (cat_units_32 c)), cat_units_length. reflexivity. Qed.
 
 Lemma cat_wf_inv c : cat_wf c = true ->
   val_ok (c_validation c) = true /\ entry_ok (c_initial c) = true /\
   forallb section_ok (c_sections c) = true /\ sections_sane (c_sections c) = true /\
-  forallb (fun h => forallb entry_bootable (h_entries h)) (c_sections c) = true /\
   forallb entry_ok (c_standalone c) = true /\ forallb entry_bootable (c_standalone c) = true.
 Proof. unfold cat_wf. intros H. andb_split H. repeat split; assumption. Qed.
 
 (* everything up to (not including) the terminator *)
-Lemma loop_catalog c rest f : cat_wf c = true ->
-  parse_loop (S (S (nrec (c_sections c) + (length (c_standalone c) + f)))) PExpectVal
-             (cat_bytes c ++ rest) =
-  parse_loop f (PSections (c_validation c) (c_initial c) (c_sections c) (c_standalone c)) rest.
+Lemma units_catalog c r : cat_wf c = true ->
+  parse_units (cat_units c ++ r) PExpectVal =
+  parse_units r (PSections (c_validation c) (c_initial c) (c_sections c) (c_standalone c)).
 Proof.
-  intros H. destruct (cat_wf_inv c H) as (Hv & Hi & Hs & _ & Hb & Hso & Hsb).
-  unfold cat_bytes. rewrite <- !app_assoc.
-  rewrite (loop_step _ _ _ _ _ (val_bytes_length _) (step_val _ Hv)).
-  rewrite (loop_step _ _ _ _ _ (entry_bytes_length _) (step_init _ _ Hi)).
-  rewrite (loop_sections _ _ _ _ _ _ [] Hs Hb). cbn [app].
-  rewrite (loop_standalone _ _ _ _ _ (sections_last_full _ Hs) _ [] Hso Hsb). reflexivity.
+  intros H. destruct (cat_wf_inv c H) as (Hv & Hi & Hs & _ & Hso & Hsb).
+  unfold cat_units. cbn [app].
+  rewrite (units_step _ _ _ _ (step_val _ Hv)), (units_step _ _ _ _ (step_init _ _ Hi)).
+  rewrite <- app_assoc, (units_sections _ _ _ _ _ [] Hs). cbn [app].
+  rewrite (units_standalone _ _ _ _ (sections_not_pending _ Hs) _ [] Hso Hsb). reflexivity.
+Qed.
+(* ... and the terminator *)
+Lemma units_catalog_term c t r : cat_wf c = true ->
+  parse_units (cat_units c ++ (0 :: t) :: r) PExpectVal = Some c.
+Proof.
+  intros H. rewrite (units_catalog c _ H). destruct (cat_wf_inv c H) as (_ & _ & Hs & Hsane & _).
+  rewrite (step_term _ _ _ _ _ _ (sections_not_pending _ Hs) Hsane). destruct c; reflexivity.
+Qed.
+
+Lemma cat_wf_record c : cat_wf c = true -> cat_record c = Some (cat_bytes c).
+Proof.
+  intros H. destruct (cat_wf_inv c H) as (Hv & Hi & Hs & _ & Hso & _).
+  unfold cat_record, cat_ranges_ok.
+  destruct (val_roundtrip _ Hv) as (Hvr & _). unfold val_record in Hvr.
+  destruct (u8_ok _ && u16_ok _); [|discriminate Hvr]. rewrite (entry_ok_ranges _ Hi).
+  replace (forallb _ (c_sections c)) with true; [replace (forallb _ (c_standalone c)) with true; [reflexivity|]|].
+  - symmetry. apply forallb_forall. intros e He. apply entry_ok_ranges.
+    rewrite forallb_forall in Hso. apply Hso, He.
+  - symmetry. apply forallb_forall. intros s Hin. rewrite forallb_forall in Hs.
+    destruct (section_ok_inv s (Hs s Hin)) as (Hh & _ & He).
+    unfold header_ok in Hh. andb_split Hh. apply andb_true_intro. split.
+    + unfold header_ranges_ok, u8_ok, u16_ok in *. lia.
+    + apply forallb_forall. intros e Hie. apply entry_ok_ranges. rewrite forallb_forall in He. apply He, Hie.
 Qed.
 
 (* Theorem 3: record() followed by any 32-byte unit whose first byte is 0 (the zero padding of the
-   catalog's extent) parses back to the same catalog, for any number of sections and entries. *)
+   catalog's extent) parses back to the same catalog, for any number of sections and entries,
+   bootable or not. *)
 Theorem cat_roundtrip c rest : cat_wf c = true ->
-  cat_record c <> None /\ parse_catalog (cat_bytes c ++ 0 :: rest) = Some c.
+  cat_record c = Some (cat_bytes c) /\ parse_catalog (cat_bytes c ++ 0 :: rest) = Some c.
 Proof.
-  intros H. split.
-  - destruct (cat_wf_inv c H) as (Hv & Hi & Hs & _ & _ & Hso & _).
-    unfold cat_record, cat_ranges_ok.
-    destruct (val_roundtrip _ Hv) as (Hvr & _). unfold val_record in Hvr.
-    destruct (u8_ok _ && u16_ok _); [|discriminate Hvr]. rewrite (entry_ok_ranges _ Hi).
-    replace (forallb _ (c_sections c)) with true; [replace (forallb _ (c_standalone c)) with true; [discriminate|]|].
-    + symmetry. apply forallb_forall. intros e He. apply entry_ok_ranges.
-      rewrite forallb_forall in Hso. apply Hso, He.
-    + symmetry. apply forallb_forall. intros s Hin. rewrite forallb_forall in Hs.
-      destruct (section_ok_inv s (Hs s Hin)) as (Hh & _ & He).
-      unfold header_ok in Hh. andb_split Hh. apply andb_true_intro. split.
-      * unfold header_ranges_ok, u8_ok, u16_ok in *. lia.
-      * apply forallb_forall. intros e Hie. apply entry_ok_ranges. rewrite forallb_forall in He. apply He, Hie.
-  - unfold parse_catalog. pose proof (cat_bytes_length c) as Hl.
-    replace (S (length (cat_bytes c ++ 0 :: rest)))
-      with (S (S (nrec (c_sections c) + (length (c_standalone c) +
-               S (length (cat_bytes c ++ 0 :: rest) - (2 + nrec (c_sections c) + length (c_standalone c)))))))
-      by (rewrite app_length; cbn [length]; lia).
-    rewrite (loop_catalog c _ _ H). cbn [parse_loop firstn cat_parse_step]. change (0 =? 0) with true. cbv iota.
-    destruct (cat_wf_inv c H) as (_ & _ & _ & Hsane & _). rewrite Hsane. destruct c; reflexivity.
+  intros H. split; [apply cat_wf_record, H|].
+  unfold parse_catalog. pose proof (cat_bytes_length c) as Hl. pose proof (cat_units_length c) as Hu.
+  remember (length (cat_bytes c ++ 0 :: rest)) as n eqn:En.
+  assert (Hd : (length (cat_units c) <= n)%nat) by (subst n; rewrite app_length; cbn [length]; lia).
+  clear En.
+  replace (S n) with (length (cat_units c) + S (n - length (cat_units c)))%nat by lia.
+  rewrite cat_bytes_units, (read32_units _ (cat_units_32 c)). cbn [read32 firstn].
+  apply units_catalog_term, H.
 Qed.
 
-(* record() on its own has no terminator: the loop reads on past its end (b'' -> IndexError) *)
+(* record() on its own has no terminator: a reader without the 64-unit limit reads on past its end
+   (b'' -> IndexError) *)
 Theorem cat_record_alone_unterminated c : cat_wf c = true -> parse_catalog (cat_bytes c) = None.
 Proof.
-  intros H. unfold parse_catalog. pose proof (cat_bytes_length c) as Hl.
+  intros H. unfold parse_catalog. pose proof (cat_bytes_length c) as Hl. pose proof (cat_units_length c) as Hu.
   replace (S (length (cat_bytes c)))
-    with (S (S (nrec (c_sections c) + (length (c_standalone c) +
-             S (length (cat_bytes c) - (2 + nrec (c_sections c) + length (c_standalone c)))))))
-    by lia.
-  rewrite <- (app_nil_r (cat_bytes c)) at 2. rewrite (loop_catalog c _ _ H). reflexivity.
+    with (length (cat_units c) + S (length (cat_bytes c) - length (cat_units c)))%nat by lia.
+  rewrite <- (app_nil_r (cat_bytes c)) at 2.
+  rewrite cat_bytes_units, (read32_units _ (cat_units_32 c)). cbn [read32 firstn].
+  rewrite (units_catalog c _ H). reflexivity.
 Qed.
 
-(* ---- the invariant of new() and add_section() ---- *)
-Lemma indicators_app i x :
-  indicators_ok (i ++ [x]) = forallb (fun h => h_indicator h =? 144) i && (h_indicator x =? 145).
+(* The reader of _check_and_parse_eltorito: at most 64 units of the image, then zero units.  Every
+   well-formed catalog that fits in its 2048-byte extent is read back from the extent as written
+   (record() then zeros), whatever follows the extent in the image -- including a catalog of
+   exactly 2048 bytes, which has no terminator of its own. *)
+Theorem cat_extent_roundtrip c beyond : cat_wf c = true -> (length (cat_bytes c) <= 2048)%nat ->
+  parse_catalog_extent (cat_extent_bytes c ++ beyond) = Some c.
 Proof.
-  induction i as [|a i IH]; [cbn; rewrite andb_true_r; reflexivity|].
-  cbn [app indicators_ok forallb]. rewrite IH.
-  destruct i; cbn [app]; [cbn [forallb]|]; rewrite ?andb_assoc; reflexivity.
-Qed.
-
-Lemma indicators_sane secs : indicators_ok secs = true ->
-  forallb section_ok secs = true -> sections_sane secs = true.
-Proof.
-  induction secs as [|s r IH]; [reflexivity|]. cbn [indicators_ok forallb sections_sane].
-  intros Hi Ho. apply andb_prop in Hi. apply andb_prop in Ho. destruct Hi as [Hi1 Hi2]. destruct Ho as [Ho1 Ho2].
-  destruct (section_ok_inv s Ho1) as (_ & Hn & _). rewrite (IH Hi2 Ho2), andb_true_r.
-  apply andb_true_intro. split; [lia|]. destruct r; [reflexivity|exact Hi1].
-Qed.
-
-Lemma cat_inv_inv c : cat_inv c = true ->
-  val_ok (c_validation c) = true /\ entry_ok (c_initial c) = true /\
-  forallb section_ok (c_sections c) = true /\ indicators_ok (c_sections c) = true /\
-  zlen (c_sections c) <= 31 /\ forallb (fun h => h_num_entries h =? 1) (c_sections c) = true /\
-  c_standalone c = [].
-Proof.
-  unfold cat_inv. intros H. andb_split H. repeat split; try assumption; [lia|].
-  destruct (c_standalone c); [reflexivity|discriminate].
-Qed.
-Lemma cat_inv_intro c :
-  val_ok (c_validation c) = true -> entry_ok (c_initial c) = true ->
-  forallb section_ok (c_sections c) = true -> indicators_ok (c_sections c) = true ->
-  zlen (c_sections c) <= 31 -> forallb (fun h => h_num_entries h =? 1) (c_sections c) = true ->
-  c_standalone c = [] -> cat_inv c = true.
-Proof.
-  intros H1 H2 H3 H4 H5 H6 H7. unfold cat_inv. rewrite H1, H2, H3, H4, H6, H7.
-  replace (zlen (c_sections c) <=? 31) with true by lia. reflexivity.
-Qed.
-
-(* a catalog satisfying the invariant, all of whose section entries are bootable, is well formed *)
-Theorem cat_inv_wf c : cat_inv c = true -> all_bootable c = true -> cat_wf c = true.
-Proof.
-  intros H Hb. destruct (cat_inv_inv c H) as (H1 & H2 & H3 & H4 & _ & _ & H7).
-  unfold cat_wf. unfold all_bootable in Hb. rewrite H1, H2, H3, Hb, H7, (indicators_sane _ H4 H3). reflexivity.
-Qed.
-
-Theorem cat_new_inv sc ls m st pid b c : cat_new sc ls m st pid b = Some c ->
-  new_args_ok sc ls m st = true -> cat_inv c = true /\ all_bootable c = true /\
-  v_platform_id (c_validation c) = pid.
-Proof.
-  unfold cat_new. intros H Ha. destruct (platform_ok pid) eqn:Hp.
-  - destruct (val_new_ok pid Hp) as (v & Hv & Hvo & Hvp & _). rewrite Hv in H.
-    destruct (entry_new sc ls m st b) as [e|] eqn:He; [|discriminate H].
-    apply some_inv in H; subst c. destruct (entry_new_ok _ _ _ _ _ _ He Ha) as (Heo & _).
-    split; [apply cat_inv_intro; cbn [c_validation c_initial c_sections c_standalone]; auto;
-            rewrite zlen_nil; lia|].
-    split; [reflexivity|exact Hvp].
-  - rewrite (val_new_bad_platform pid Hp) in H. discriminate H.
-Qed.
-
-Lemma new_section_ok e pid : entry_ok e = true -> u8_ok pid = true ->
-  section_ok (header_add_new_entry (header_new (repeat 0 28) pid) e) = true.
-Proof.
-  intros He Hp. unfold section_ok, header_ok, header_add_new_entry, header_new, header_set_entries.
-  cbn [h_indicator h_platform_id h_num_entries h_id_string h_entries app forallb].
-  rewrite He, Hp, bytes_ok_repeat0, repeat_length. reflexivity.
-Qed.
-Lemma section_ok_not_last s : section_ok s = true -> section_ok (header_set_record_not_last s) = true.
-Proof.
-  unfold section_ok, header_ok, header_set_record_not_last.
-  cbn [h_indicator h_platform_id h_num_entries h_id_string h_entries]. intros H. andb_split H.
-  rewrite H3, H2, H1, H4, H0, H5. reflexivity.
-Qed.
-
-(* add_section maintains the invariant: a new last section 0x91 with one entry, the previous last
-   one switched to 0x90, at most 31 sections *)
-Theorem add_section_inv c sc ls m st efi b c' : cat_inv c = true ->
-  cat_add_section c sc ls m st efi b = Some c' -> new_args_ok sc ls m st = true ->
-  cat_inv c' = true /\ zlen (c_sections c') = zlen (c_sections c) + 1 /\
-  (b = true -> all_bootable c = true -> all_bootable c' = true).
-Proof.
-  intros H Ha Hargs. destruct (cat_inv_inv c H) as (H1 & H2 & H3 & H4 & H5 & H6 & H7).
-  unfold cat_add_section in Ha. destruct (zlen (c_sections c) =? 31) eqn:E31; [discriminate Ha|].
-  destruct (entry_new sc ls m st b) as [e|] eqn:He; [|discriminate Ha].
-  apply some_inv in Ha; subst c'. cbn [c_validation c_initial c_sections c_standalone].
-  destruct (entry_new_ok _ _ _ _ _ _ He Hargs) as (Heo & Hbi & _).
-  assert (Hpid : u8_ok (if efi then 239 else v_platform_id (c_validation c)) = true).
-  { destruct efi; [reflexivity|]. unfold val_ok in H1. andb_split H1. apply platform_ok_u8, H1. }
-  pose proof (new_section_ok e _ Heo Hpid) as Hnew.
-  set (sec := header_add_new_entry (header_new (repeat 0 28) _) e) in *.
-  pose proof (split_last_spec (c_sections c)) as Hsl. unfold all_bootable. cbn [c_sections].
-  destruct (split_last (c_sections c)) as [[i l]|].
-  - rewrite Hsl in *. clear Hsl. rewrite forallb_app in H3, H6. rewrite indicators_app in H4.
-    apply andb_prop in H3. apply andb_prop in H4. apply andb_prop in H6.
-    destruct H3 as [H3a H3b]. destruct H4 as [H4a H4b]. destruct H6 as [H6a H6b].
-    cbn [forallb] in H3b, H6b. rewrite andb_true_r in H3b, H6b.
-    rewrite zlen_app, zlen_cons, zlen_nil in *.
-    split; [|split; [rewrite !zlen_app, !zlen_cons, !zlen_nil; lia|]].
-    + apply cat_inv_intro; cbn [c_validation c_initial c_sections c_standalone]; auto.
-      * rewrite !forallb_app. cbn [forallb]. rewrite H3a, Hnew, (section_ok_not_last l H3b). reflexivity.
-      * rewrite indicators_app, forallb_app. cbn [forallb]. rewrite H4a. reflexivity.
-      * rewrite !zlen_app, !zlen_cons, !zlen_nil. lia.
-      * rewrite !forallb_app. cbn [forallb]. rewrite H6a. cbn [header_set_record_not_last h_num_entries].
-        rewrite H6b. reflexivity.
-    + intros Hb Hab. rewrite !forallb_app in *. cbn [forallb] in *. apply andb_prop in Hab. destruct Hab as [Hab1 Hab2].
-      rewrite Hab1. cbn [header_set_record_not_last h_entries]. rewrite Hab2.
-      unfold sec, header_add_new_entry, header_set_entries, header_new. cbn [h_entries app forallb].
-      unfold entry_bootable. rewrite Hbi, Hb. reflexivity.
-  - rewrite Hsl in *. clear Hsl. cbn [app]. split; [|split; [reflexivity|]].
-    + apply cat_inv_intro; cbn [c_validation c_initial c_sections c_standalone]; auto;
-        cbn [forallb]; rewrite ?Hnew, ?zlen_cons, ?zlen_nil; try reflexivity; lia.
-    + intros Hb _. cbn [forallb]. unfold sec, header_add_new_entry, header_set_entries, header_new.
-      cbn [h_entries app forallb]. unfold entry_bootable. rewrite Hbi, Hb. reflexivity.
-Qed.
-Lemma add_section_limit c sc ls m st efi b :
-  zlen (c_sections c) = 31 -> cat_add_section c sc ls m st efi b = None.
-Proof. intros H. unfold cat_add_section. rewrite H. reflexivity. Qed.
-
-(* catalogs reachable from new() by add_section(), all calls with packable arguments *)
-Inductive built : et_catalog -> bool -> Prop :=
-| built_new sc ls m st pid b c :
-    cat_new sc ls m st pid b = Some c -> new_args_ok sc ls m st = true -> built c true
-| built_add c ab sc ls m st efi b c' :
-    built c ab -> cat_add_section c sc ls m st efi b = Some c' -> new_args_ok sc ls m st = true ->
-    built c' (ab && b).
-
-Theorem built_inv c ab : built c ab -> cat_inv c = true /\ (ab = true -> all_bootable c = true).
-Proof.
-  induction 1 as [sc ls m st pid b c Hn Ha|c ab sc ls m st efi b c' Hb [IH1 IH2] Hadd Ha].
-  - destruct (cat_new_inv _ _ _ _ _ _ _ Hn Ha) as (H1 & H2 & _). auto.
-  - destruct (add_section_inv _ _ _ _ _ _ _ _ IH1 Hadd Ha) as (H1 & _ & H3).
-    split; [exact H1|]. intros Hab. apply andb_prop in Hab. destruct Hab as [Hab1 Hab2]. auto.
-Qed.
-(* every catalog built with bootable=True section entries survives write + open *)
-Corollary built_roundtrip c rest : built c true ->
-  parse_catalog (cat_bytes c ++ 0 :: rest) = Some c.
-Proof.
-  intros H. destruct (built_inv c true H) as [H1 H2]. apply cat_roundtrip, cat_inv_wf; auto.
-Qed.
-
-(* ---- what is false ---- *)
-(* add_section(..., bootable=False) keeps the invariant and record() works, but the entry starts
-   with 0x00, which parse takes for the terminator: "section header specified 1 entries, only saw
-   0".  (Reproduced on the library: add_eltorito twice, the second with bootable=False, write,
-   open -> PyCdlibInvalidISO.) *)
-Theorem add_section_nonbootable_refuted :
-  exists c c', built c true /\ cat_add_section c 4 0 MNoemul 0 false false = Some c' /\
-    cat_inv c' = true /\ cat_record c' <> None /\ parse_catalog (cat_extent_bytes c') = None.
-Proof.
-  destruct (cat_new 4 0 MNoemul 0 0 true) as [c|] eqn:E; [|vm_compute in E; discriminate E].
-  exists c. eexists. split; [eapply built_new; [exact E|reflexivity]|].
-  vm_compute in E. apply some_inv in E. subst c.
-  split; [vm_compute; reflexivity|]. split; [vm_compute; reflexivity|].
-  split; [vm_compute; discriminate|vm_compute; reflexivity].
-Qed.
-
-Fixpoint add_sections (n : nat) (c : et_catalog) : option et_catalog :=
-  match n with
-  | O => Some c
-  | S n' => match cat_add_section c 4 0 MNoemul 0 false true with
-            | Some c' => add_sections n' c'
-            | None => None
-            end
-  end.
-Lemma add_sections_built n : forall c c', built c true -> add_sections n c = Some c' -> built c' true.
-Proof.
-  induction n as [|n IH]; intros c c' Hb H; cbn [add_sections] in H.
-  - apply some_inv in H; subst c'. exact Hb.
-  - destruct (cat_add_section c 4 0 MNoemul 0 false true) as [c1|] eqn:E; [|discriminate H].
-    apply (IH c1 c'); [|exact H]. change true with (true && true).
-    eapply built_add; [exact Hb|exact E|reflexivity].
-Qed.
-
-(* the limit of 31 sections lets record() fill the whole 2048-byte extent: nothing is left for the
-   terminator, so the image cannot be parsed again whatever follows the extent unless it happens
-   to start with a zero byte.  (Reproduced: 1 + 31 add_eltorito, write, open ->
-   PyCdlibInvalidISO 'Invalid El Torito Boot Catalog entry', the next extent being a boot file.) *)
-Theorem full_catalog_refuted :
-  exists c, built c true /\ zlen (c_sections c) = 31 /\ cat_wf c = true /\
-    length (cat_bytes c) = 2048%nat /\ cat_extent_bytes c = cat_bytes c /\
-    parse_catalog (cat_extent_bytes c) = None /\
-    parse_catalog (cat_extent_bytes c ++ [98; 111; 111; 116; 10] ++ repeat 0 2043) = None /\
-    cat_add_section c 4 0 MNoemul 0 false true = None.
-Proof.
-  destruct (cat_new 4 0 MNoemul 0 0 true) as [c0|] eqn:E0; [|vm_compute in E0; discriminate E0].
-  assert (Hb0 : built c0 true) by (eapply built_new; [exact E0|reflexivity]).
-  destruct (add_sections 31 c0) as [c|] eqn:E.
-  2:{ vm_compute in E0. apply some_inv in E0. subst c0. vm_compute in E. discriminate E. }
-  exists c. split; [exact (add_sections_built 31 c0 c Hb0 E)|].
-  vm_compute in E0. apply some_inv in E0. subst c0. vm_compute in E. apply some_inv in E. subst c.
-  vm_conj.
-Qed.
-(* for every well-formed catalog that fills its extent *)
-Theorem full_catalog_unterminated c : cat_wf c = true -> length (cat_bytes c) = 2048%nat ->
-  parse_catalog (cat_extent_bytes c) = None.
-Proof.
-  intros H Hl. unfold cat_extent_bytes. rewrite Hl. cbn [Nat.sub repeat]. rewrite app_nil_r.
-  apply cat_record_alone_unterminated, H.
-Qed.
-
-(* a 0x44 Section Entry Extension is appended to the selection criteria of the last entry, but
-   record() packs only 19 bytes ('19s') and never emits an extension entry; with no section (or
-   an empty one) the subscript [-1] raises IndexError *)
-Example extension_entry_lost :
-  let e := mk_entry 136 0 0 0 4 27 1 (repeat 7 19) in
-  let s := mk_header 145 0 1 (repeat 0 28) [e] in
-  let ext := [68; 0] ++ repeat 9 30 in
-  forall v i, cat_new 4 0 MNoemul 0 0 true = Some (mk_cat v i [] []) ->
-  let data := cat_bytes (mk_cat v i [s] []) ++ ext ++ repeat 0 32 in
-  parse_catalog data =
-    Some (mk_cat v i [mk_header 145 0 1 (repeat 0 28)
-                        [mk_entry 136 0 0 0 4 27 1 (repeat 7 19 ++ repeat 9 30)]] []) /\
-  check_catalog_bytes data = false /\
-  parse_catalog (cat_bytes (mk_cat v i [] []) ++ ext ++ repeat 0 32) = None.
-Proof.
-  intros e s ext v i H. vm_compute in H. apply some_inv in H. injection H as <- <-.
-  vm_conj.
-Qed.
-
-(* ---- real objects: new(); three add_eltorito (the second efi=True, the third load_seg 0x7c0 on
-   a 3000-byte file); write; eltorito_boot_catalog.record() and the catalog's extent ---- *)
-Definition zero28 : list Z := repeat 0 28.
-Definition real_cat : et_catalog :=
-  mk_cat (mk_val 0 (repeat 0 24) 21930) (mk_entry 136 0 0 0 4 26 0 (repeat 0 19))
-    [ mk_header 144 239 1 zero28 [mk_entry 136 0 0 0 4 27 0 (repeat 0 19)];
-      mk_header 145 0 1 zero28 [mk_entry 136 0 1984 0 8 28 0 (repeat 0 19)] ] [].
-Definition real_cat_bytes : list Z :=
-  real_val_bytes ++ real_init_bytes
-  ++ [144; 239; 1; 0] ++ zero28 ++ [136; 0; 0; 0; 0; 0; 4; 0; 27; 0; 0; 0] ++ repeat 0 20
-  ++ [145; 0; 1; 0] ++ zero28 ++ [136; 0; 192; 7; 0; 0; 8; 0; 28; 0; 0; 0] ++ repeat 0 20.
-(* the extents are assigned later (set_data_location); add_section creates the entries with rba 0 *)
-Definition set_rbas (c : et_catalog) (r0 : Z) (rs : list Z) : et_catalog :=
-  mk_cat (c_validation c) (entry_set_data_location (c_initial c) r0)
-    (map (fun '(h, r) => header_set_entries h (h_num_entries h)
-                           (map (fun e => entry_set_data_location e r) (h_entries h)))
-         (combine (c_sections c) rs)) (c_standalone c).
-Example real_catalog :
-  cat_record real_cat = Some real_cat_bytes /\ length real_cat_bytes = 192%nat /\
-  cat_wf real_cat = true /\ cat_inv real_cat = true /\
-  parse_catalog (real_cat_bytes ++ repeat 0 1856) = Some real_cat /\
-  cat_extent_bytes real_cat = real_cat_bytes ++ repeat 0 1856 /\
-  check_catalog_bytes (real_cat_bytes ++ repeat 0 1856) = true /\
-  bad_catalog_cases 0 [real_cat_bytes ++ repeat 0 1856; real_cat_bytes; real_val_bytes] = [1%nat; 2%nat] /\
-  (exists c1 c2 c3, cat_new 4 0 MNoemul 0 0 true = Some c1 /\
-     cat_add_section c1 4 0 MNoemul 0 true true = Some c2 /\
-     cat_add_section c2 (default_sector_count 3000) 1984 MNoemul 0 false true = Some c3 /\
-     set_rbas c3 26 [27; 28] = real_cat).
-Proof.
-  repeat match goal with |- _ /\ _ => split end; try (vm_compute; reflexivity).
-  do 3 eexists. vm_conj.
+  intros H Hfit. unfold parse_catalog_extent, cat_extent_bytes.
+  pose proof (cat_bytes_length c) as Hl. pose proof (cat_units_length c) as Hu.
+  set (N := length (cat_units c)) in *.
+  assert (HN : (N <= 64)%nat) by lia.
+  replace 64%nat with (N + (64 - N))%nat at 1 by lia.
+  rewrite <- app_assoc, cat_bytes_units. unfold N at 1.
+  rewrite (read32_units _ (cat_units_32 c)), <- app_assoc.
+  fold N. rewrite <- cat_bytes_units.
+  replace (2048 - length (cat_bytes c))%nat with (32 * (64 - N))%nat by lia.
+  destruct (64 - N)%nat as [|m] eqn:Em.
+  - cbn [read32 app]. unfold zero_units. replace (Z.to_nat 65538) with (S (Z.to_nat 65537)) by lia.
+    cbn [repeat]. apply units_catalog_term, H.
+  - replace (32 * S m)%nat with (S (31 + 32 * m))%nat by lia. cbn [read32 repeat app firstn].
+    apply units_catalog_term, H.
 Qed.
 
 Print Assumptions cat_bytes_length.
 Print Assumptions cat_roundtrip.
 Print Assumptions cat_record_alone_unterminated.
-Print Assumptions cat_inv_wf.
-Print Assumptions cat_new_inv.
-Print Assumptions add_section_inv.
-Print Assumptions built_inv.
-Print Assumptions built_roundtrip.
-Print Assumptions add_section_nonbootable_refuted.
-Print Assumptions full_catalog_refuted.
-Print Assumptions full_catalog_unterminated.
-Print Assumptions extension_entry_lost.
+Print Assumptions cat_extent_roundtrip.
